@@ -1170,6 +1170,10 @@ type Data struct {
 	denormOngoing bool // true if we are doing denormalizations so avoid ops on them.
 
 	sync.RWMutex // For CAS ops.  TODO: Make more specific (e.g., point locks) for efficiency.
+
+	// mutateMu serializes the read-modify-write of stored element lists (blocks, labels, tags)
+	// by mutation requests and sync events.  Readers do not take it.
+	mutateMu sync.Mutex
 }
 
 func (d *Data) Equals(d2 *Data) bool {
@@ -2204,8 +2208,8 @@ func (d *Data) StoreBlocks(ctx *datastore.VersionedCtx, r io.Reader, kafkaOff bo
 		return 0, err
 	}
 
-	// d.Lock()
-	// defer d.Unlock()
+	d.mutateMu.Lock()
+	defer d.mutateMu.Unlock()
 
 	// Do modifications under a batch.
 	store, err := d.KVStore()
@@ -2271,8 +2275,8 @@ func (d *Data) StoreElements(ctx *datastore.VersionedCtx, r io.Reader, kafkaOff 
 		return err
 	}
 
-	// d.Lock()
-	// defer d.Unlock()
+	d.mutateMu.Lock()
+	defer d.mutateMu.Unlock()
 
 	dvid.Infof("%d annotation elements received via POST\n", len(elems))
 
@@ -2365,8 +2369,8 @@ func (d *Data) DeleteElement(ctx *datastore.VersionedCtx, pt dvid.Point3d, kafka
 	bcoord := pt.Chunk(blockSize).(dvid.ChunkPoint3d)
 	tk := NewBlockTKey(bcoord)
 
-	// d.Lock()
-	// defer d.Unlock()
+	d.mutateMu.Lock()
+	defer d.mutateMu.Unlock()
 
 	elems, err := getElements(ctx, tk)
 	if err != nil {
@@ -2441,8 +2445,8 @@ func (d *Data) MoveElement(ctx *datastore.VersionedCtx, from, to dvid.Point3d, k
 	toCoord := to.Chunk(blockSize).(dvid.ChunkPoint3d)
 	toTk := NewBlockTKey(toCoord)
 
-	// d.Lock()
-	// defer d.Unlock()
+	d.mutateMu.Lock()
+	defer d.mutateMu.Unlock()
 
 	// Alter all stored versions of this annotation using a batch.
 	store, err := d.KVStore()
